@@ -3,7 +3,7 @@ import copy
 from .. import gen
 from . import seqprop
 
-GEN = ['JsonUtilGen.v', 'Decisions.v', 'Sites.v', 'BookGen.v', 'CacheGen.v']
+GEN = ['JsonUtilGen.v', 'Decisions.v', 'Sites.v', 'BookGen.v', 'CacheGen.v', 'DriverGen.v']
 DECISIONS = ['FileBuilder._remove_empty_dirs', 'FileBuilder._try_to_remove_file', 'FileBuilder.clean']
 SITES = True
 ORDER = False
